@@ -20,6 +20,8 @@ MUTANTS = {
     # name: (function name in pony.orm.core, [(old, new), ...])
     'repaired_and': ('has_perm', [('ATTR_BRANCH', ATTR_BRANCH_AND), ('if x in rule.entities_to_exclude: continue', 'if entity in rule.entities_to_exclude: continue')]),
     'repaired_oneword': ('has_perm', [('for reverse_rule in access_rules:', 'for reverse_rule in reverse_rules:')]),
+    'repaired_or': ('has_perm', [('for reverse_rule in access_rules:', 'for reverse_rule in reverse_rules:'), ('if not reverse_rules: return False', 'if not reverse_rules: continue'),
+                                 ('if x in rule.entities_to_exclude: continue', 'if entity in rule.entities_to_exclude: continue')]),
     'repaired_object': ('has_perm', [('if x in rule.entities_to_exclude: continue', 'if entity in rule.entities_to_exclude: continue')]),
     # the next three are meant to be stacked on repaired_and ("repaired_and+r_...")
     'r_attr_exclusion_dropped': ('has_perm', [('                        and attr not in rule.attrs_to_exclude: return True', '                        : return True')]),
